@@ -147,6 +147,8 @@ func init() {
 			job(sc(sim.BoundaryNodesCfg("c01-boundary-34-nodes", 1, fMove|fRel|fVal|fBExch, oBasic).P("C01")), pick(tier, 2, 3), 1),
 			job(sc(sim.BoundaryEntitiesCfg("c01-boundary-64-entities-cap1", 62, 4, 1, fRet|fMove|fBNew|fVal, oBasic).P("C01")), pick(tier, 3, 4), 0.5),
 			job(sc(sim.BoundaryEntitiesCfg("c01-boundary-128-entities", 124, 4, 128, fRet|fMove|fBNew|fVal, oBasic).P("C01")), pick(tier, 3, 4), 0.5),
+			// the accessors of open queries hand out copies (Ids) and pointers (Get): used and scribbled over at every position
+			job(sc(sim.CoreCfg("c01-core-k3-query-accessors", 3, 2, nil, fMove|fVal, oDeep).P("C01")), pick(tier, 3, 4), 1),
 			// a relation capacity increment that differs from the capacity increment of plain tables
 			job(sc(func() *sim.Cfg {
 				c := sim.RelCfg("c01-rel-k4-relcap1-cap8-storage", 0, 4, 0, 8, fBld|fMove|fRet|fVal|fBSet, oBasic)
@@ -204,7 +206,7 @@ func init() {
 				c := sim.CoreCfg("c02-core-k3-ids-0-64-128-192-exclusive-removal", 3, 8, []int{0, 63, 63, 63}, fMove|fBRem, oBasic)
 				c.BatchRefs = []int{0, 1, 4}
 				return c.P("C02")
-			}()), pick(tier, 3, 5), 0.5),
+			}()), pick(tier, 4, 5), 0.5),
 			// handles across DumpEntities / LoadEntities (lock-step pair, also decided by C17)
 			job(scAny(&sim.PairCfg{ID: "c02-ent-k5-dumpload", Base: func() *sim.Cfg {
 				c := sim.EntCfg("c02-ent-k5-dumpload/base", 5, 1, fBNew|fBRem, oBasic)
